@@ -1,4 +1,5 @@
 """C04 - physical scaling is exact decimal arithmetic and invertible."""
+import copy as _copy
 import decimal
 
 import canmatrix.canmatrix as cm
@@ -9,7 +10,18 @@ RULE = ("ops: 'dec' = primitives of the decimal model (add/sub/mul/div/round) on
         "'scale' = (integer signal width 1..64 signed/unsigned, non-zero factor and offset with 1..12 significant digits, exponents "
         "-10..6 (one in ten: -40..-11 or 7..20), both signs, optional value table; raw value: every raw for widths <= 12 in thorough / <= 6 in quick, boundaries "
         "and random interior otherwise) observing raw2phys, phys2raw(raw2phys), named_value, default min/max, raw range; "
-        "Value tables include labels that differ in letter case or blanks only; another signal with the same labels on other keys converts first. 'label' = value-table label to raw key. Non-trivial = distinct case with a non-integer factor or non-zero offset.")
+        "Value tables include labels that differ in letter case or blanks only; another signal with the same labels on other keys converts first. 'label' = value-table label to raw key. "
+        "Paths ('via'): the physical and the named value are read through Signal.raw2phys, through DecodedSignal.phys_value / named_value, through "
+        "Frame.decode(bytes)[name] (frame with a second signal of another scaling) or through CanMatrix.decode(id, bytes)[name]; a label goes "
+        "through Signal.phys2raw or through Frame.encode({name: label}). "
+        "Histories ('hist', three sigdescs in five): the Signal object has a life before it reaches the state under test: constructed with another "
+        "width / signedness / factor / offset / value table (limits given or computed by the constructor, table given to the constructor or added), "
+        "used in that state (set_min/set_max(None), calc_min, calc_max, calculate_raw_range, conversions both ways, named decoding, label "
+        "conversion, deepcopy), re-dimensioned by attribute assignment through up to two earlier states, value table emptied / replaced and "
+        "filled anew; the default limits are then recomputed by a generated sequence of set_min(None) / set_max(None) / calc_min() / calc_max() "
+        "calls in any order (maximum alone first, minimum first, repeated), before or after the conversions.  The case sent to the judge is the "
+        "final state; what the object was before must not show. "
+        "Non-trivial = distinct case with a non-integer factor or non-zero offset.")
 EXHAUSTIVE = {"quick": False, "thorough": False}
 PARTIAL = ["float signals (raw value converted through Decimal(float)) are outside this property (integer signals)",
            "cases whose exact product or sum needs more than 28 significant digits are outside the stated domain; they are still "
@@ -91,6 +103,77 @@ def raws_for(rng, sd, tier):
     return [r for r in out if lo <= r <= hi]
 
 
+# ---------------------------------------------------------------------------------------------
+# histories: what the Signal object went through before it reached the state under test
+# ---------------------------------------------------------------------------------------------
+ATTRS = ["size", "signed", "factor", "offset"]
+LIMIT_CALLS = ["min", "max", "cmin", "cmax"]        # set_min(None), set_max(None), calc_min(), calc_max()
+POSITIONS = ["lo", "hi", "mid", "one", "zero"]
+
+
+def rand_uses(rng, labels, nmax=4):
+    """what an application does with a signal in some state: ask for limits and range, convert, decode names, copy"""
+    out = []
+    for _ in range(rng.randint(0, nmax)):
+        c = rng.random()
+        if c < 0.4:
+            out.append([rng.choice(LIMIT_CALLS)])
+        elif c < 0.5:
+            out.append(["range"])
+        elif c < 0.7:
+            out.append(["conv", rng.choice(POSITIONS)])
+        elif c < 0.8:
+            out.append(["named", rng.choice(POSITIONS)])
+        elif c < 0.9:
+            out.append(["label", rng.choice(labels)] if labels else ["decoded", rng.choice(POSITIONS)])
+        else:
+            out.append(["copy"])
+    return out
+
+
+def rand_fin(rng):
+    """the calls that recompute the default limits in the final state: at least one for each limit, in any order, possibly repeated"""
+    fin = [rng.choice(["min", "cmin"]), rng.choice(["max", "cmax"])]
+    if rng.random() < 0.6:
+        fin.reverse()               # the maximum first (what canconvert's recalcSignalMaximums does on its own)
+    if rng.random() < 0.3:
+        fin.insert(rng.randint(0, 2), rng.choice(LIMIT_CALLS))
+    return fin
+
+
+def rand_hist(rng, sd):
+    labels = sorted({v for _, v in sd["values"]})
+    prev = []
+    for _ in range(rng.choice([0, 1, 1, 1, 2])):
+        st = {"size": sd["size"], "signed": sd["signed"], "factor": sd["factor"], "offset": sd["offset"]}
+        for a in rng.sample(ATTRS, rng.choice([1, 1, 2, 3, 4])):
+            if a == "size":
+                st["size"] = rng.choice([1, 2, 7, 8, 12, 16, 32, 63, 64, rng.randint(1, 64), max(1, sd["size"] - 1), min(64, sd["size"] + 1)])
+            elif a == "signed":
+                st["signed"] = not sd["signed"]
+            elif a == "factor":
+                st["factor"] = rand_factor(rng)
+            else:
+                st["offset"] = rand_offset(rng)
+        st["uses"] = rand_uses(rng, labels)
+        # the same labels on other keys while the signal was something else
+        st["vals"] = [[rng.choice([0, 1, 2, 3, rng.randint(0, 1 << (st["size"] - 1))]), lab] for lab in labels if rng.random() < 0.7]
+        prev.append(st)
+    had_vals = any(st["vals"] for st in prev)
+    if had_vals:
+        tab = rng.choice(["clear", "rebind", "del"])
+    else:
+        tab = rng.choice(["add", "add", "ctor"]) if not prev else "add"
+    order = list(ATTRS)
+    rng.shuffle(order)
+    return {"ctor": rng.choice(["plain", "plain", "limits"]), "prev": prev, "order": order, "tab": tab,
+            "uses": rand_uses(rng, labels, 2), "fin": rand_fin(rng), "conv": rng.choice(["after", "after", "before"])}
+
+
+VIAS = ["signal", "signal", "decoded", "decoded", "frame", "matrix"]
+LABEL_VIAS = ["signal", "signal", "frame"]
+
+
 def gen(rng, tier, shard, nshards):
     total = {"quick": 20000, "thorough": 400000}[tier] // nshards
     for _ in range(total // 2):
@@ -106,12 +189,23 @@ def gen(rng, tier, shard, nshards):
     n = 0
     while n < total // 2:
         sd = rand_sigdesc(rng, width=rng.choice([None, None, rng.randint(1, 6 if tier == "quick" else 12)]))
-        for r in raws_for(rng, sd, tier):
+        # two sigdescs in five are built afresh for every case (as before); the others have a history, a new one every few raw values
+        with_hist = rng.random() < 0.6
+        hist = None
+        for i, r in enumerate(raws_for(rng, sd, tier)):
             n += 1
-            yield {"op": "scale", "c": {"sig": sd, "raw": r}}
+            c = {"sig": sd, "raw": r, "via": rng.choice(VIAS)}
+            if with_hist:
+                if i % 4 == 0:
+                    hist = rand_hist(rng, sd)
+                c["hist"] = hist
+            yield {"op": "scale", "c": c}
         if sd["values"]:
-            for lab in {v for _, v in sd["values"]} | {"NoSuchLabel"}:
-                yield {"op": "label", "c": {"sig": sd, "label": lab}}
+            for lab in sorted({v for _, v in sd["values"]} | {"NoSuchLabel"}):
+                c = {"sig": sd, "label": lab, "via": rng.choice(LABEL_VIAS)}
+                if with_hist:
+                    c["hist"] = rand_hist(rng, sd)
+                yield {"op": "label", "c": c}
 
 
 def neighbours(case, rng, shard, nshards):
@@ -121,7 +215,18 @@ def neighbours(case, rng, shard, nshards):
         else:
             sd = rand_sigdesc(rng)
             for r in raws_for(rng, sd, "quick")[:6]:
-                yield {"op": "scale", "c": {"sig": sd, "raw": r}}
+                c = {"sig": sd, "raw": r, "via": rng.choice(VIAS)}
+                if rng.random() < 0.6:
+                    c["hist"] = rand_hist(rng, sd)
+                yield {"op": "scale", "c": c}
+            # the same signal and path as the disagreeing case, other raw values and other histories
+            if case["op"] == "scale":
+                sd0 = case["c"]["sig"]
+                for r in raws_for(rng, sd0, "quick")[:4]:
+                    c = {"sig": sd0, "raw": r, "via": case["c"].get("via", "signal")}
+                    if "hist" in case["c"]:
+                        c["hist"] = rng.choice([case["c"]["hist"], rand_hist(rng, sd0)])
+                    yield {"op": "scale", "c": c}
 
 
 def mksig(sd):
@@ -138,6 +243,135 @@ def mksig(sd):
     return s
 
 
+ATTR_NAME = {"size": "size", "signed": "is_signed", "factor": "factor", "offset": "offset"}
+
+
+def _attr_value(st, a):
+    return dec_of(st[a]) if a in ("factor", "offset") else st[a]
+
+
+def _assign(s, cur, new, order):
+    """the object is re-dimensioned / re-scaled by attribute assignment, only what differs, in the order of the history"""
+    for a in order:
+        if cur[a] != new[a]:
+            setattr(s, ATTR_NAME[a], _attr_value(new, a))
+
+
+def _raw_at(s, pos):
+    lo, hi = s.calculate_raw_range()
+    lo, hi = int(lo), int(hi)
+    return {"lo": lo, "hi": hi, "mid": (lo + hi) // 2, "one": min(1, hi), "zero": 0}[pos]
+
+
+def _limit_call(s, name):
+    """one of the four public ways to a default limit; returns the limit it yields"""
+    if name == "min":
+        v = s.set_min(None)
+        return v if v is s.min or v == s.min else "<set_min(None) returned %r but min is %r>" % (v, s.min)
+    if name == "max":
+        v = s.set_max(None)
+        return v if v is s.max or v == s.max else "<set_max(None) returned %r but max is %r>" % (v, s.max)
+    if name == "cmin":
+        return s.calc_min()
+    return s.calc_max()
+
+
+def _uses(s, uses):
+    """what an application did with the object in an earlier state; returns the object that lives on (a deepcopy replaces it)"""
+    for u in uses:
+        try:
+            k = u[0]
+            if k in LIMIT_CALLS:
+                _limit_call(s, k)
+            elif k == "range":
+                s.calculate_raw_range()
+            elif k == "conv":
+                r = _raw_at(s, u[1])
+                s.phys2raw(s.raw2phys(r))
+            elif k == "named":
+                r = _raw_at(s, u[1])
+                s.raw2phys(r, decode_to_str=True)
+                cm.DecodedSignal(r, s).named_value
+            elif k == "decoded":
+                cm.DecodedSignal(_raw_at(s, u[1]), s).phys_value
+            elif k == "label":
+                s.phys2raw(u[1])
+            elif k == "copy":
+                s = _copy.deepcopy(s)
+        except Exception:  # noqa  (an earlier state may be one in which a conversion is refused; that is not what is observed here)
+            pass
+    return s
+
+
+def build(sd, hist):
+    """the Signal object in state `sd` after the life `hist` (None: built afresh as before)"""
+    if hist is None:
+        return mksig(sd)
+    prev = hist["prev"]
+    first = prev[0] if prev else sd
+    kw = {}
+    if hist["ctor"] == "limits":
+        # limits given to the constructor: nothing is computed there
+        kw["min"] = decimal.Decimal(0)
+        kw["max"] = decimal.Decimal(1)
+    if not prev and hist["tab"] == "ctor":
+        kw["values"] = {k: v for k, v in sd["values"]}
+    s = cm.Signal("s", size=first["size"], is_signed=first["signed"], factor=dec_of(first["factor"]), offset=dec_of(first["offset"]), **kw)
+    cur = first
+    for i, st in enumerate(prev):
+        if i:
+            _assign(s, cur, st, hist["order"])
+        for k, v in st["vals"]:
+            s.add_values(k, v)
+        s = _uses(s, st["uses"])
+        cur = st
+    if prev:
+        _assign(s, cur, sd, hist["order"])
+    if hist["tab"] == "clear":
+        s.values.clear()
+    elif hist["tab"] == "rebind":
+        s.values = {}
+    elif hist["tab"] == "del":
+        for k in list(s.values):
+            del s.values[k]
+    if "values" not in kw:
+        for k, v in sd["values"]:
+            s.add_values(k, v)
+    return _uses(s, hist["uses"])
+
+
+def _finish(s, hist):
+    """recompute the default limits as the history says; returns (min, max) as the calls yielded them"""
+    if hist is None:
+        return s.min, s.max
+    mn = mx = None
+    for name in hist["fin"]:
+        v = _limit_call(s, name)
+        if name in ("min", "cmin"):
+            mn = v
+        else:
+            mx = v
+    return mn, mx
+
+
+def _in_frame(s, sd, matrix):
+    """the signal at the start of a frame of its own, followed by a byte-wide signal of another scaling"""
+    nbytes = (sd["size"] + 7) // 8
+    n = cm.Signal("n", start_bit=nbytes * 8, size=8, is_signed=False, factor=decimal.Decimal(3), offset=decimal.Decimal(7))
+    f = cm.Frame("f", arbitration_id=cm.ArbitrationId(0x123, extended=False), size=nbytes + 1)
+    f.add_signal(s)
+    f.add_signal(n)
+    if not matrix:
+        return f, f.decode, f.encode
+    db = cm.CanMatrix()
+    db.add_frame(f)
+    return f, (lambda data: db.decode(f.arbitration_id, data)), (lambda d: db.encode(f.arbitration_id, d))
+
+
+def _tri_or_text(v):
+    return tri(v) if isinstance(v, decimal.Decimal) else ("<not a decimal number: %r>" % (v,))
+
+
 def observe(case):
     op, c = case["op"], case["c"]
     if op == "dec":
@@ -148,26 +382,35 @@ def observe(case):
         b = dec_of(c[2])
         r = {"add": a + b, "sub": a - b, "mul": a * b, "div": (a / b) if which == "div" else None}[which]
         return tri(r)
-    s = mksig(c["sig"])
+    sd, hist, via = c["sig"], c.get("hist"), c.get("via", "signal")
+    s = mksig(sd)
     # another signal lives in the same process: same labels on other keys, other scaling.  It converts first; what one signal
     # converts is no business of another
-    sd2 = dict(c["sig"])
-    vals = c["sig"]["values"]
+    sd2 = dict(sd)
+    vals = sd["values"]
     lo2, hi2 = s.calculate_raw_range()
     sd2["values"] = [[k2, v] for k2, v in zip([int(hi2) - i for i in range(len(vals))], [v for _, v in reversed(vals)]) if int(lo2) <= k2 <= int(hi2)]
     sd2["factor"] = [False, "3", 0]
     sd2["offset"] = [False, "7", 0]
     decoy = mksig(sd2)
-    s = mksig(c["sig"])
+    s = build(sd, hist)
     for k2, v2 in sd2["values"]:
         try:
             decoy.phys2raw(v2)
             decoy.raw2phys(k2, decode_to_str=True)
         except Exception:  # noqa
             pass
+    early = hist is not None and hist["conv"] == "after"
+    if early:
+        mn, mx = _finish(s, hist)
     if op == "label":
         try:
-            r = s.phys2raw(c["label"])
+            if via == "frame":
+                # the label goes in through Frame.encode and the raw key is read back from the payload
+                f, dec, enc = _in_frame(s, sd, False)
+                r = dec(enc({"s": c["label"]}))["s"].raw_value
+            else:
+                r = s.phys2raw(c["label"])
         except Exception:  # noqa
             return None
         return int(r)
@@ -180,15 +423,34 @@ def observe(case):
             s.raw2phys(other, decode_to_str=True)
         except Exception:  # noqa
             pass
-    phys = s.raw2phys(raw)
-    named = cm.DecodedSignal(raw, s).named_value
+    # the physical and the named value, read on the path the case names
+    if via == "signal":
+        phys = s.raw2phys(raw)
+        named = cm.DecodedSignal(raw, s).named_value
+    elif via == "decoded":
+        d = cm.DecodedSignal(raw, s)
+        phys = d.phys_value
+        named = d.named_value
+    else:
+        f, dec, enc = _in_frame(s, sd, via == "matrix")
+        nbytes = (sd["size"] + 7) // 8
+        data = bytearray((raw & ((1 << sd["size"]) - 1)).to_bytes(nbytes, "little")) + bytearray([0xA5])
+        got = dec(data)
+        d = got["s"]
+        phys = d.phys_value
+        named = d.named_value
+        if d.raw_value != raw or got["n"].phys_value != 0xA5 * 3 + 7:
+            phys = "<decoding the frame gave raw %r for %r, neighbour %r>" % (d.raw_value, raw, got["n"].phys_value)
     # the two ways to a named value (DecodedSignal.named_value, raw2phys(decode_to_str=True)) agree
     named2 = s.raw2phys(raw, decode_to_str=True)
     if isinstance(named, str) != isinstance(named2, str) or (isinstance(named, str) and named != named2):
         named = "<named_value and raw2phys(decode_to_str=True) disagree: %r / %r>" % (named, named2)
+    back = int(s.phys2raw(phys)) if isinstance(phys, decimal.Decimal) else None
+    if not early:
+        mn, mx = _finish(s, hist)
     lo, hi = s.calculate_raw_range()
-    return {"phys": tri(phys), "back": int(s.phys2raw(phys)), "named": named if isinstance(named, str) else tri(named),
-            "min": tri(s.min), "max": tri(s.max), "range": [int(lo), int(hi)]}
+    return {"phys": _tri_or_text(phys), "back": back, "named": named if isinstance(named, str) else tri(named),
+            "min": _tri_or_text(mn), "max": _tri_or_text(mx), "range": [int(lo), int(hi)]}
 
 
 def project(impl):
@@ -208,6 +470,19 @@ def features(case, impl):
         if sd["factor"][2] < -10 or sd["factor"][2] > 6:
             yield "factor-magnitude=extreme"
         yield "named=label" if isinstance(impl["named"], str) else "named=number"
+        yield "via=" + case["c"].get("via", "signal")
+        h = case["c"].get("hist")
+        if h is None:
+            yield "history=none"
+        else:
+            yield "history=%d earlier states" % len(h["prev"])
+            yield "limits recomputed: %s first, %s the conversions" % ("maximum" if h["fin"][0] in ("max", "cmax") else "minimum", h["conv"])
+            if any(st[a] != case["c"]["sig"][a] for st in h["prev"] for a in ("size", "signed")):
+                yield "history: raw range changed"
+            if any(st[a] != case["c"]["sig"][a] for st in h["prev"] for a in ("factor", "offset")):
+                yield "history: scaling changed"
+            if h["tab"] != "add":
+                yield "history: value table " + h["tab"]
         if len(impl["phys"][1]) >= 28:
             yield "28-digit-result"
 
